@@ -145,11 +145,12 @@ Definition max_int64 : N := 9223372036854775807.
 
 (* SearchIndex.Search (with the clamp of the repaired code; [clamp = false] is the code before the fix) *)
 Inductive search_res := SRange (start end_ : N) | SErr | SPanic.
-Definition search_index (clamp : bool) (offs : list N) (body key : bytes) : search_res :=
+(* [rk] = the readKey callback: None = panic, Some None = read error, Some (Some k) = the key at that offset *)
+Definition search_index_with (rk : N -> option (option bytes)) (clamp : bool) (offs : list N) (key : bytes) : search_res :=
   match offs with
   | [] => SRange 0 max_int64
   | _ =>
-      let cmpf := fun off => match read_key_at body off with
+      let cmpf := fun off => match rk off with
                              | None => None
                              | Some None => Some None
                              | Some (Some k) => Some (Some (bcmp k key))
@@ -176,6 +177,13 @@ Definition search_index (clamp : bool) (offs : list N) (body key : bytes) : sear
           end
       end
   end.
+
+Definition search_index (clamp : bool) (offs : list N) (body key : bytes) : search_res :=
+  search_index_with (read_key_at body) clamp offs key.
+
+(* a storage read that fails while the key at offset [bad] is read (one transient ReadAt failure) *)
+Definition faulty (rk : N -> option (option bytes)) (bad : N) : N -> option (option bytes) :=
+  fun off => if off =? bad then Some None else rk off.
 
 (* the scan loop of Table.Get over the bytes from the current offset to the end bound *)
 Fixpoint scan_get (fuel : nat) (d : bytes) (off end_ : N) (key : bytes) : get_res :=
